@@ -1,5 +1,5 @@
 """Per-property policy: which rules decide which clause, floors, scope, wording for the evidence."""
-from . import rules_conv, rules_table, rules_codec, rules_layout, rules_effect, rules_path, rules_reply, rules_cow, rules_node, rules_ref, rules_ident, rules_traits, rules_event, rules_iter, rules_lin
+from . import rules_conv, rules_table, rules_codec, rules_layout, rules_effect, rules_path, rules_reply, rules_cow, rules_node, rules_ref, rules_ident, rules_traits, rules_event, rules_iter, rules_lin, rules_types
 
 import json, os
 
@@ -527,3 +527,53 @@ PROPS = {
         ],
     },
 }
+
+
+# ---------------------------------------------------------------------------------------------------------------------
+# round 7: rules decided by operand types (every property, verdict for the directories of its anchor files) and the
+# per-property additions that go with them
+# ---------------------------------------------------------------------------------------------------------------------
+TYPE_RULES_TEXT = (" Type-limit rules (verdict for the files in the directories of the anchor files): UNSIGNEDNEG: no `x < 0` / `x >= 0` test on an operand of unsigned type "
+                   "(a refusal that can never be taken). BYTESIGN: no (in)equality between an `unsigned char` and a plain `char` operand (bytes from 0x80 up never compare equal). "
+                   "FLAGWIDTH: every constant mask lies inside the declared type of the value it tests. SIZEOFPTR: no length argument is the sizeof of a pointer variable unless the "
+                   "memory holds pointers. LOCALNARROW (anchor files of the properties it is armed for): a one- or two-byte local that implicitly receives a wider value receives one inside its range (interval analysis).")
+# LOCALNARROW is armed only where the interval engine bounds every narrowing store of the unchanged tree in the property's directories
+LOCALNARROW_PROPS = ("C04", "C05", "C06", "C08", "C09", "C10", "C11", "C12", "C13", "C14", "C15", "C16", "C19")
+for _pid, _spec in PROPS.items():
+    _spec["rules"] += [
+        {"run": rules_types.run_unsignedneg, "floor": 1000, "scope": "anchor-dirs"},
+        {"run": rules_types.run_bytesign, "floor": 25, "scope": "anchor-dirs"},
+        {"run": rules_types.run_flagwidth, "floor": 400, "scope": "anchor-dirs"},
+        {"run": rules_types.run_sizeofptr, "floor": 200, "scope": "anchor-dirs"},
+    ]
+    if _pid in LOCALNARROW_PROPS:
+        _spec["rules"].append({"run": rules_types.run_localnarrow, "floor": 20, "scope": "anchors"})
+    _spec["explanation"] += TYPE_RULES_TEXT
+    _spec["technique"] += "; type-resolved operand rules (constant comparisons, byte signedness, mask width, sizeof of pointers, interval check of narrowing locals)"
+
+_ADD = {
+    "C01": ([], " ENCKEEP (part of LINCODEC): at every successful return of an encoder that was given output space and input (or asked to terminate) the finished part `done` and the encoded amount `done + scratch` are not below their values at entry, termination gives done' >= done + scratch, and the open block stays below a full code block (assumed at entry, shown at exit); exits behind the block loop where the relation is not shown are listed as not decided."),
+    "C04": ([{"run": rules_cow.run_stalebuf, "floor": 25, "scope": "anchor-dirs"}],
+            " STALEBUF: forward may-analysis per function: a local computed from `A->_buf` is not read, dereferenced or returned after a call that may replace A's buffer (functions that store to their array parameter's `_buf`, transitively) unless it was assigned again."),
+    "C05": ([{"run": rules_traits.run_initwrites, "floor": 15}, {"run": rules_traits.run_finibound, "floor": 8}],
+            " INITWRITES: every `init` operation named by a type_traits table has written through its element pointer on each path to a return that can be non-negative. FINIBOUND: no store to `B->_used` reaches the read of `B->_used` that bounds a finalizer loop over B."),
+    "C06": ([{"run": rules_table.run_sparsezero, "floor": 5, "use_anchor_files": True}],
+            " SPARSEZERO: tables addressed by computed index (file-level pointers) get their memory from calloc() or are cleared with memset in the allocating function."),
+    "C10": ([{"run": rules_types.run_signextend, "floor": 3, "use_anchor_files": True}],
+            " SIGNEXTEND: in the path files no plain `char` loaded from memory is implicitly converted to an unsigned type of 4 bytes or more where it is used as a number (assignment, arithmetic, comparison, index): length bytes are read through `unsigned char`."),
+    "C12": ([{"run": rules_effect.run_objects, "floor": 8, "ctx": {"records": ["mpt_reply_data", "reply_data", "mpt_reply_context", "reply_context"], "min_functions": 5}, "use_anchor_files": True},
+             {"run": rules_reply.run_flextail, "floor": 2, "use_anchor_files": True}],
+            " ERRFX on every function of the anchor files that takes a reply_data / reply_context: no store to it on a path that refuses. FLEXTAIL: where the tail of an object that ends in the 4-byte id array is computed as capacity minus a sizeof, the sizeof is not larger than that array."),
+    "C15": ([{"run": rules_ref.run_raisetest, "floor": 40}, {"run": rules_traits.run_finibound, "floor": 8}],
+            " RAISETEST: the answer of every addref slot call / mpt_refcount_raise (new count, 0 on failure) is decided by a zero test on the full-width value: no `< 0` test, no copy into a narrower variable. FINIBOUND as for C05."),
+    "C16": ([{"run": rules_ident.run_initlive, "floor": 6}],
+            " INITLIVE: mpt_identifier_init() is applied only in constructors, in type_traits init operations, to locals, or to memory allocated by the caller: never to `*this` of another member function or to an object handed in."),
+    "C17": ([{"run": rules_path.run_fraglocate, "floor": 1, "use_anchor_files": True}, {"run": rules_path.run_fragadopt, "floor": 3, "use_anchor_files": True}],
+            " FRAGLOCATE: a loop that reduces an offset by fragment lengths to find the fragment holding it runs while offset >= length. FRAGADOPT: where a continuation fragment becomes the base part, `cont` is stepped past it on every path to the exit."),
+    "C19": ([{"run": rules_iter.run_parkrestore, "floor": 6, "use_anchor_files": True}, {"run": rules_table.run_typemap, "floor": 120, "scope": "anchors"}],
+            " PARKRESTORE: typestate with trace partitioning over the parked-byte marker of the text iterator: the marker is dropped only after the parked byte was put back or the marker was tested null. TYPEMAP (see C06) for the id -> size switch of mpt_iterator_consume."),
+    "C20": ([], " ERRFX now also covers the helpers a setter hands a pointer into its object to (colour, attribute, string and position parsers): calls of writers whose result is discarded count as stores, and calls that only inspect their arguments (strlen, strncasecmp, isspace ..) do not excuse a store made before them."),
+}
+for _pid, (_rules, _text) in _ADD.items():
+    PROPS[_pid]["rules"] += _rules
+    PROPS[_pid]["explanation"] += _text
